@@ -31,6 +31,7 @@ THEOREMS = [
     "C09_hint_chain_is_C04",
     "C09_wired_start_once",
     "C09_wired_anyOf_witness",
+    "C09_label_slice_utf8_witness",
     "C09_scraped_label_rule",
     "C09_macro_eq_inlined",
     "C09_by_value_rerun",
@@ -434,6 +435,8 @@ def gen_macro(rng, ids, depth_left, allow_dup, top=False, allow_base=True):
     if rets and rng.random() < 0.45:
         pool = {"self": ["selfish", "self_energy", "selfx"], "m": ["mean", "m_out", "mx"],
                 "wf": ["wfx", "wf_out", "wfresult"]}[m["selfarg"]] + ["res", "val"]
+        # non-ASCII identifiers (Greek, accented, CJK): the return line is then longer in bytes than in characters
+        pool += rng.sample(["ε_out", "résultat", "値", "σ2", "Δx", "naïve", "出力"], 3)
         rng.shuffle(pool)
         m["loc"] = [pool.pop() if rng.random() < 0.6 else None for _ in rets]
         if D.can_scrape(m) and rng.random() < 0.8:
@@ -1430,7 +1433,7 @@ def _run_family(case, modname, variant):
     defs = case["family"]
     obs, problems = [], []
     stats = {"family": 1}
-    with open(f"{modname}.py", "w") as f:
+    with open(f"{modname}.py", "w", encoding="utf-8") as f:
         f.write(D.render_family(defs))
     importlib.invalidate_caches()
     try:
@@ -1548,7 +1551,7 @@ def _run(case, modname, variant):
             if m["args"][k]["h"]:
                 bump("hinted")
 
-    with open(f"{modname}.py", "w") as f:
+    with open(f"{modname}.py", "w", encoding="utf-8") as f:
         f.write(D.render(defn))
     importlib.invalidate_caches()
     try:
@@ -1570,6 +1573,8 @@ def _run(case, modname, variant):
             bump("lab:scraped")
             if any(x.get("loc") or []):
                 bump("lab:local")
+            if any(l and not l.isascii() for l in (x.get("loc") or [])):
+                bump("lab:non-ascii")
     if facts["iface"]:
         facts["build"] = "iface"
         return res
